@@ -4,6 +4,7 @@ import (
 	"errors"
 	"fmt"
 	"math/rand"
+	"runtime"
 	"sort"
 	"strings"
 
@@ -328,6 +329,39 @@ func init() {
 			res["error_mentions_harness"] = strings.Contains(out.Error(), "harness_pure") || strings.Contains(out.Error(), "main.")
 		}
 	}
+	// [depth]: WithStack called below `depth` extra frames; the functions Error() lists against runtime.Callers at the same site
+	calls["xerrors.WithStackDeep"] = func(a []any, res map[string]any) {
+		var listed, own []string
+		deepCall(num(a[0]), func() {
+			own = callerFuncs()
+			out := xerrors.WithStack(errors.New("deep"))
+			for _, line := range strings.Split(out.Error(), "\n") {
+				if strings.HasSuffix(line, "(...)") {
+					listed = append(listed, strings.TrimSuffix(line, "(...)"))
+				}
+			}
+		})
+		same := len(listed) == len(own)
+		diff := -1
+		for i := 0; i < len(listed) && i < len(own); i++ {
+			if listed[i] != own[i] {
+				same = false
+				if diff < 0 {
+					diff = i
+				}
+			}
+		}
+		if !same && diff < 0 {
+			diff = len(listed)
+			if len(own) < diff {
+				diff = len(own)
+			}
+		}
+		res["r"] = []any{"bool", same}
+		res["frames"] = len(own)
+		res["listed"] = len(listed)
+		res["first_diff"] = diff
+	}
 	calls["xerrors.WithStackTwice"] = func(a []any, res map[string]any) {
 		reg := newReg()
 		e, ok := reg.build(a[0])
@@ -419,4 +453,34 @@ func init() {
 		}
 		res["r"] = []any{"freq", counts, first}
 	}
+}
+
+// deepCall runs f below n extra stack frames.
+//
+//go:noinline
+func deepCall(n int, f func()) {
+	if n <= 0 {
+		f()
+		return
+	}
+	deepCall(n-1, f)
+	deepSink++
+}
+
+var deepSink int
+
+// callerFuncs returns the function names of the caller's call stack, innermost first (the caller itself included).
+func callerFuncs() []string {
+	pcs := make([]uintptr, 1<<16)
+	n := runtime.Callers(2, pcs)
+	frames := runtime.CallersFrames(pcs[:n])
+	var out []string
+	for {
+		fr, more := frames.Next()
+		out = append(out, fr.Function)
+		if !more {
+			break
+		}
+	}
+	return out
 }
